@@ -68,6 +68,10 @@ def run(ctx) -> None:
     check_state(ctx)
     check_detach(ctx)
     check_context(ctx)
+    from . import genesform
+
+    ctx.rule("C12.gpr", "finite evaluation: a copied gene rule shares no tree node and no gene set with the original (copy, __copy__ - what Model.copy uses -, for empty, one-gene and nested rules)", floor=1)
+    ctx.guard(genesform.check_rule_copies, ctx, "C12.gpr")
 
 
 # ----------------------------------------------------------------------------------------- fresh
